@@ -400,6 +400,10 @@ def run_shard(sh, deadline):
     acc = core.new_acc()
     if sh['kind'] == 'ctarget':
         const_target_shard(asm, acc, sh, deadline)
+        if sh.get('first'):
+            # "register outside the allowed set": the base register of an sp-relative access written as off(base) is sp and nothing else
+            from . import c02
+            c02.sp_base_cases(asm, acc)
         return acc
     if sh['kind'] == 'dist':
         dist_shard(asm, acc, sh, deadline)
@@ -431,7 +435,7 @@ def plan(tier, seed):
     dcases.sort(key=lambda c: c['D'])
     nd = 32
     shards += [{'kind': 'dist', 'cases': dcases[i::nd]} for i in range(nd)]
-    shards += [{'kind': 'ctarget', 'seed': seed + i} for i in range(2 if tier == 'quick' else 128)]
+    shards += [{'kind': 'ctarget', 'seed': seed + i, 'first': i == 0} for i in range(2 if tier == 'quick' else 128)]
     return {'shards': shards, 'budget_s': 240 if tier == 'quick' else 1500, 'exhaustive': False}
 
 
@@ -462,6 +466,9 @@ def replay(case):
         dist_shard(asm, acc, {'cases': [{k: v for k, v in case.items() if k != 'kind'}]}, time.time() + 600)
     elif case['kind'] == 'enc':
         judge(asm, acc, case['m'], case['args'], case.get('kw') or None, set())
+    elif case['kind'] == 'spbase':
+        from . import c02
+        c02.sp_base_cases(asm, acc)
     elif case['kind'] == 'frac':
         acc['n'] += 1
         o = monitors.observe(asm, case['line'], tap=False)
